@@ -2366,6 +2366,14 @@ class sptensor:
             for dim, entry in enumerate(key):
                 if isinstance(entry, (int, np.integer)) and entry < 0:
                     entry = self.shape[dim] + entry  # noqa: PLW2901
+                elif isinstance(entry, slice) and dim < self.ndims:
+                    # Slice bounds counted from the end refer to the current extent
+                    start, stop = entry.start, entry.stop
+                    if start is not None and start < 0:
+                        start = max(self.shape[dim] + start, 0)
+                    if stop is not None and stop < 0:
+                        stop = max(self.shape[dim] + stop, 0)
+                    entry = slice(start, stop, entry.step)  # noqa: PLW2901
                 updated_key.append(entry)
             return self._set_subtensor(updated_key, value)
         # Case 2: Subscripts
